@@ -44,7 +44,7 @@ def _java_cmd(extra_jvm=(), override=True):
 
 def module_path_env():
     # TLC resolves EXTENDS relative to the spec file's directory and -DTLA-Library
-    libs = [str(SPEC / d) for d in ("lib", "gen", "")]
+    libs = [str(SPEC / d) for d in ("lib", "gen", "", "mc")]
     return "-DTLA-Library=" + os.pathsep.join(libs)
 
 
